@@ -70,7 +70,7 @@ THEOREMS['C14'] = ['FB.C14_fault_surfaces', 'FB.MakeRoomF.makeRoomF_moved', 'FB.
 THEOREMS['C03'] = ['FB.C03_impl_build', 'FB.C03_impl_buildGo', 'FB.C03_impl_run_frame', 'FB.replayOp_frame', 'FB.C03_run_frame',
                    'FB.C12_preClean_frame', 'FB.C02_rolledBack_files', 'FB.C12_impl_clean_is_preClean',
                    'FB.MakeRoom.makeRoom_moved', 'FB.MakeRoom.makeRoom_keeps_virtual', 'FB.Rollback.rollBack_restores_files',
-                   'FB.Commit.commit_frame', 'FB.Commit.commit_keeps_file', 'FB.Commit.commit_exact', 'FB.Commit.commit_exact_general', 'FB.Commit.commit_exact_instance']
+                   'FB.Commit.commit_frame', 'FB.Commit.commit_keeps_file', 'FB.Commit.commit_exact', 'FB.Commit.commit_exact_general', 'FB.Commit.commit_exact_instance', 'FB.Commit.commit_keeps_cache_file', 'FB.Commit.commit_matches_model_world']
 THEOREMS['C16'] = ['FB.Codec.decode_encode', 'FB.Codec.decodeOps_encodeOps', 'FB.Codec.read_write', 'FB.Codec.replayOp_strip',
                    'FB.Codec.replayOps_strip', 'FB.Codec.isEqual_textRT', 'FB.Codec.textRT_of_wf']
 THEOREMS['C11'] = ['FB.Heap.C11_records_immutable', 'FB.Heap.C11_records_immutable_from_init', 'FB.Heap.C11_served_value', 'FB.Heap.inv_run', 'FB.Heap.inv_step',
